@@ -14,9 +14,11 @@ CONTAINER_STORE = ("push", "insert", "extend", "append", "push_back", "push_fron
 
 
 class MayFlow:
-    def __init__(self, F, max_depth=3):
+    def __init__(self, F, max_depth=3, seed=None):
         self.F = F
         self.max_depth = max_depth
+        # seed(node) -> bool: expressions that are sources themselves (e.g. a read of a particular struct field)
+        self.seed = seed
         self.reached = {}   # group path -> set(ids)
 
     def group(self, fn):
@@ -32,6 +34,8 @@ class MayFlow:
         for x in T.walk(node):
             k = x.get("k")
             if k in ("Var", "Upvar") and x.get("id") in ids:
+                return True
+            if self.seed is not None and self.seed(x):
                 return True
             if k == "Closure" and _depth < 4:
                 c = self.F.by_path.get(x.get("d"))
@@ -49,7 +53,7 @@ class MayFlow:
         g = self.group(fn)
         cur = self.reached.setdefault(g["path"], set())
         new = set(ids) - cur
-        if not new and depth > 0:
+        if not new and depth > 0 and self.seed is None:
             return self.reached
         cur |= set(ids)
         changed = True
